@@ -290,25 +290,31 @@ func newSession(snowflakes SnowflakeCollector) (net.PacketConn, *smux.Session, e
 	// stream.
 	dialContext := func(ctx context.Context) (net.PacketConn, error) {
 		log.Printf("redialing on same connection")
-		// Obtain an available WebRTC remote. May block.
-		conn := snowflakes.Pop()
-		if conn == nil {
-			return nil, errors.New("handler: Received invalid Snowflake")
+		for {
+			// Obtain an available WebRTC remote. May block.
+			conn := snowflakes.Pop()
+			if conn == nil {
+				return nil, errors.New("handler: Received invalid Snowflake")
+			}
+			vhook("dial.popped", conn.id)
+			log.Println("---- Handler: snowflake assigned ----")
+			// Send the magic Turbo Tunnel token, then the ClientID prefix.
+			_, err := conn.Write(turbotunnel.Token[:])
+			if err == nil {
+				_, err = conn.Write(clientID[:])
+			}
+			if err != nil {
+				// The snowflake died between Pop and its first use. Returning
+				// the error would close the RedialPacketConn, and with it the
+				// whole session, for good; discard this snowflake and take the
+				// next one instead.
+				log.Printf("snowflake failed before first use: %v", err)
+				conn.Close()
+				continue
+			}
+			vhook("dial.up", conn.id, clientID)
+			return newEncapsulationPacketConn(dummyAddr{}, dummyAddr{}, conn), nil
 		}
-		vhook("dial.popped", conn.id)
-		log.Println("---- Handler: snowflake assigned ----")
-		// Send the magic Turbo Tunnel token.
-		_, err := conn.Write(turbotunnel.Token[:])
-		if err != nil {
-			return nil, err
-		}
-		// Send ClientID prefix.
-		_, err = conn.Write(clientID[:])
-		if err != nil {
-			return nil, err
-		}
-		vhook("dial.up", conn.id, clientID)
-		return newEncapsulationPacketConn(dummyAddr{}, dummyAddr{}, conn), nil
 	}
 	pconn := turbotunnel.NewRedialPacketConn(dummyAddr{}, dummyAddr{}, dialContext)
 
